@@ -146,7 +146,7 @@ class C07:
             route = rng.choice(['full', 'points', 'subset_calc',
                                 'calc_subset', 'crop_calc', 'calc_crop',
                                 'subset_only', 'subset_only', 'subset_none',
-                                'tilted'])
+                                'tilted', 'sph'])
             img = state['img']
             oi = 1 if (use_alt and rng.random() < 0.4) else 0
             if (pi, kind, oi) not in state['full'] or route == 'full':
@@ -158,6 +158,29 @@ class C07:
             full = state['full'][(pi, kind, oi)]
             k = rng.choice([1, tot, rng.randint(1, tot), rng.randint(1, tot)])
             seed = rng.choice(seeds + [None, rng.randrange(10 ** 6)])
+            if route == 'sph':
+                # the same locations listed as (r, theta, phi) about a single
+                # sphere: same values as the Cartesian list, on every call
+                sk_, tk_, scd_, _ = pairs[pi]
+                if sk_ != 'sphere' or scd_[0] != 'sphere' or \
+                        tk_ not in ('Mie', 'auto', 'classMie'):
+                    continue
+                ps = rng.randrange(10 ** 6)
+                kk = rng.randint(1, min(tot, 16))
+                grp = len(b.events)
+                pc = b.emit('points_from_grid',
+                            {'det': img, 'perm_seed': ps, 'k': kk},
+                            store='pts')
+                calc(pc, pi, kind, extra_tags={'route': 'sph-cart',
+                                               'grp': grp}, oi=oi)
+                psph = b.emit('points_from_grid',
+                              {'det': img, 'perm_seed': ps, 'k': kk,
+                               'sph_about': list(scd_[1]['center'])},
+                              store='pts')
+                for rep in range(rng.choice([1, 2, 2])):
+                    calc(psph, pi, kind, extra_tags={'route': 'sph-sph',
+                                                     'grp': grp}, oi=oi)
+                continue
             if route == 'tilted':
                 # explicit points on a minutely tilted plane: the group is
                 # either refused or gives, at each point, what that point
@@ -289,6 +312,39 @@ class C07:
                 seen += 1
             return None
 
+        sphg = {}
+        for ev in ex.run['events']:
+            tg = ev.get('tags', {})
+            if tg.get('route') in ('sph-cart', 'sph-sph'):
+                rec = ex.records.get(ev['id'])
+                if rec and rec['outcome'] == 'ok' and O.is_da(
+                        rec.get('payload')):
+                    sphg.setdefault(tg['grp'], {}).setdefault(
+                        tg['route'], []).append((ev, rec))
+        for d in sphg.values():
+            for cev, crec in d.get('sph-cart', [])[:1]:
+                cv = np.asarray(crec['payload']['values'])
+                for sev, srec in d.get('sph-sph', []):
+                    sv = np.asarray(srec['payload']['values'])
+                    ex.stats['oracle_sim'] += 1
+                    if sv.shape != cv.shape:
+                        ex.add(violation(
+                            'C07.coords', sev['id'],
+                            'result on spherical points has shape %r, on the '
+                            'same Cartesian points %r' % (sv.shape, cv.shape),
+                            sig='C07.coords:sph'))
+                        continue
+                    scale = max(1e-300, float(np.max(np.abs(cv))))
+                    err = float(np.max(np.abs(sv - cv))) / scale
+                    mx = ex.stats.setdefault('maxerr', {})
+                    mx['sph_points'] = max(mx.get('sph_points', 0.0), err)
+                    if not err <= 1e-8:
+                        ex.add(violation(
+                            'C07.value', sev['id'],
+                            'locations listed as (r, theta, phi) about the '
+                            'sphere give values %.3g (relative) away from '
+                            'the same locations listed as (x, y, z)' % err,
+                            sig='C07.value:sph'))
         tilted = {}
         for ev in ex.run['events']:
             tg = ev.get('tags', {})
